@@ -165,13 +165,23 @@ func discharge(reps []*funcReport, workDir string, timeout time.Duration, need i
 				tmo = 2 * time.Second
 				nd = 1
 			}
-			res := raceSolvers(file, tmo, nd)
+			var res []SolverResult
+			if j.o.Cover {
+				res = []SolverResult{runOne(context.Background(), solvers[0], file, 1500*time.Millisecond)}
+			} else {
+				res = raceSolvers(file, tmo, nd)
+			}
 			j.o.All = res
 			r := res[0]
 			if j.o.Cover && r.Status == "unsat" && j.o.PreNFacts > 0 {
 				// is the program point reachable at all without the assumptions under test?
 				nf := j.o.NFacts
 				j.o.NFacts = j.o.PreNFacts
+				g0 := j.o.Guard
+				if j.o.ReachGuard != "" {
+					j.o.Guard = j.o.ReachGuard
+				}
+				defer func() { j.o.Guard = g0 }()
 				q0 := j.rep.Session.query(j.o, j.rep.Session.P.anyWFDef()+litDefs()+j.rep.SpecDefs)
 				j.o.NFacts = nf
 				f0 := writeQuery(workDir, j.o.Name+".reach", q0)
